@@ -22,6 +22,12 @@ BOUNDS = ("product runs in one interpreter: out0 = asm(P,v); asm(Q1); asm(Q2); o
 OUTSIDE = "more than two intervening programs; programs outside the three templates"
 ASSUMPTIONS = []
 
+REJECTED = {
+    "ind-inc1": [" LDA [,X+]"], "ind-dec1": [" LDB [,-Y]"], "bad-reg": [" LDA 5,Z"], "pshs-s": [" PSHS S"], "tfr-mixed": [" TFR A,X"],
+    "imm-wide": [" LDA #$1234"], "dir-wide": [" LDA <$1234"], "far-branch": ["A BRA B", " RMB 200", "B NOP"], "sta-imm": [" STA #1"],
+    "dup": ["L NOP", "L NOP"], "undef": [" JMP NOWHERE"], "bad-mnem": [" FROB"], "div0": [" LDA #4/0"], "unterminated": [' FCC "ab'],
+}
+
 QS = {
     "ok-small": [" ORG $3000", "Q1 LDA #1", " BRA Q1"],
     "ok-pcr": ["QA LEAX QB,PCR", " RMB 200", "QB NOP"],
@@ -35,8 +41,14 @@ QS = {
 
 
 def _mutable_repr(v):
+    import inspect as _i
     if isinstance(v, (list, dict, set)):
         return repr(v)[:2000]
+    if _i.isgenerator(v):
+        # a generator / iterator kept at module level wears out with use: record how far it has been consumed
+        return ("generator", _i.getgeneratorstate(v), v.gi_frame.f_lasti if v.gi_frame is not None else -1)
+    if hasattr(v, "__next__") and hasattr(v, "__length_hint__"):
+        return ("iterator", v.__length_hint__())
     if hasattr(v, "__dict__") and not isinstance(v, type) and not callable(v):
         return (type(v).__name__, sorted((k, repr(x)[:200]) for k, x in vars(v).items()))
     return None
@@ -55,6 +67,9 @@ def snapshot():
                 continue
             if isinstance(g, (list, dict, set)):
                 snap["%s.%s" % (mname, gname)] = (len(g), repr(g)[:3000])
+            elif _mutable_repr(g) is not None and not inspect.isclass(g) and not inspect.isfunction(g) and not inspect.ismodule(g) \
+                    and (inspect.isgenerator(g) or hasattr(g, "__next__")):
+                snap["%s.%s" % (mname, gname)] = _mutable_repr(g)
             if inspect.isclass(g) and g.__module__ == mname:
                 for aname, a in sorted(vars(g).items()):
                     fn = a.__func__ if isinstance(a, (classmethod, staticmethod)) else a
@@ -115,6 +130,22 @@ LIB = ["DELAY LDB #{v}", "DLOOP DECB", " BNE DLOOP", " JMP DDONE", " NOP", "DDON
 P_INC = [" ORG {o}", "PSTART LDA #1", " JSR DELAY", " BRA PSTART", " INCLUDE lib.asm", "PEND NOP"]
 Q_INC = [" ORG $4000", "QSTART LDX #$1234", " LDY #$5678", " NOP", " NOP", " INCLUDE lib.asm", " JSR DELAY", " FDB DDONE"]
 Q_INC2 = [" INCLUDE lib.asm", " INCLUDE lib.asm"]      # rejected: labels defined twice
+
+
+def make_reject_twice(name, lines):
+    """a program that must be rejected is rejected every time it is assembled in one interpreter (and after the others)"""
+    def body(ctx):
+        kinds = []
+        for _ in range(3):
+            kinds.append(assemble(lines).kind)
+            for other in REJECTED.values():
+                if other is not lines:
+                    assemble(other)
+        info = {"program": lines, "outcomes": kinds}
+        if kinds[0] == kinds[1] == kinds[2]:
+            return True, info
+        return ctx.known(PID, {"part": "reject"}, {"kinds": kinds}), info
+    return Ob("C17:reject:%s" % name, body, timeout=120, tags={"part": "reject"}, text="asm(%s) three times with the other rejected programs in between" % lines, r4=False)
 
 
 def make_include(sid, seq):
@@ -192,6 +223,29 @@ def make_process(pname, values):
     return ob
 
 
+TIES = [" ORG $3000", "IOA EQU $FF22", "IOB EQU $FF22", "IOC EQU $FF22", "ZED EQU $FF22", "ALPHA EQU $FF22", "START LDA IOA", "ENTRY EQU $3000",
+        "SAME1 NOP", "K1 EQU 5", "K2 EQU 5", "K3 EQU 5", "K4 EQU 5", "TAIL RTS"]
+
+
+def make_process_ties():
+    """symbols that share a value: listing and symbol table identical in fresh processes under 6 hash seeds"""
+    def body(ctx):
+        lines = [l + "\n" for l in TIES]
+        p = Program()
+        p.process(list(lines))
+        warm = {"image": p.get_binary_array(), "listing": p.get_statements(), "symbols": p.get_symbol_table()}
+        outs = []
+        for seedv in ("0", "1", "2", "3", "12345", "random"):
+            env = dict(os.environ, PYTHONHASHSEED=seedv)
+            r = subprocess.run(["/venv/bin/python", "-c", DUMP % REPO, json.dumps(lines)], capture_output=True, text=True, env=env, timeout=120)
+            outs.append(json.loads(r.stdout.strip().splitlines()[-1]))
+        return all(o == warm for o in outs), {"fresh_equal_warm": [o == warm for o in outs]}
+    ob = Ob("C17:process:ties", body, timeout=300, tags={"part": "process"}, text="symbols sharing one value: 6 hash seeds, fresh processes", r4=False)
+    ob.native_only = True
+    ob.ncases = 7
+    return ob
+
+
 def make_process_include():
     """fresh process vs a warm process that assembled Q (including the same file elsewhere) first"""
     def body(ctx):
@@ -230,6 +284,9 @@ def obligations(tier, seed):
     for pname in meta.PROGRAMS:
         for qs in (combos if full else combos[:4] if pname == "hello" else [combos[2], combos[4]]):
             obs.append(make(pname, qs))
+    for name, lines in REJECTED.items():
+        obs.append(make_reject_twice(name, lines))
+    obs.append(make_process_ties())
     obs.append(make_include("P-P", []))
     obs.append(make_include("P-Q-P", ["Q"]))
     obs.append(make_include("P-Q2-Q-P", ["Q2", "Q"]))
